@@ -12,6 +12,7 @@ clarity at all three verbosity levels and the verdict vectors compared.
 """
 import contextlib
 import io
+import json
 import math
 import sys
 
@@ -51,7 +52,20 @@ def main():
     fine = [c for c in resf.cases if isinstance(c, dict) and "p0" in c]
     for c in fine:
         c["fine"] = True
-    cases = coarse + halfopen + fine + cases
+    resp = tlc("SesameMC", "Sesame_flat", timeout=900, workers=8)
+    require_tlc_ok(resp, "Sesame_flat")
+    run.add_tlc(resp, "Sesame_flat: flat-topped highest peak (two equal samples) above a lower ordinary peak")
+    flat = [c for c in resp.cases if isinstance(c, dict) and "p0" in c]
+    run.notes["flat_top_cases"] = len(flat)
+    if not flat or any(c.get("npk") != 2 for c in flat):
+        raise Exception("instance construction: the flat-top configuration should only yield two-answer cases")
+    # both choices of the peak on the flat top describe the same input: the real verdicts may be those of either
+    alt = {}
+    for c in flat:
+        alt.setdefault(json.dumps([c["a"], c["sp"], c["se"], c["lw"], c["nw"], c["sf"], c["rng"], sorted([c["p0"], c["p0"] + c["side"]])]), []).append(c["res"])
+    for c in flat:
+        c["alts"] = alt[json.dumps([c["a"], c["sp"], c["se"], c["lw"], c["nw"], c["sf"], c["rng"], sorted([c["p0"], c["p0"] + c["side"]])])]
+    cases = coarse + halfopen + fine + flat + cases
     rng = np.random.RandomState(run.seed)
     if not run.quick and len(cases) > 150000:
         cases = [cases[i] for i in sorted(rng.choice(len(cases), 150000, replace=False).tolist())]
@@ -92,6 +106,9 @@ def main():
             continue
         got = [int(x) for x in rel] + [int(x) for x in cla]
         bad = [names[i] for i in range(9) if exp[i] in (0, 1) and got[i] != exp[i]]
+        if bad and c.get("alts"):
+            if any(all(e_[i] not in (0, 1) or got[i] == e_[i] for i in range(9)) for e_ in c["alts"]):
+                bad = []
         if any(e_ == 2 for e_ in exp):
             run.ties += 1
         if exp[6] == 3:
